@@ -19,6 +19,23 @@ open Dmr Dmr.Trellis Dmr.Gen.Trellis
 
 /-! ## finite facts about the extracted tables -/
 
+/-- the tables are those of ETSI TS 102 361-1 annex B.2.4 (written out here, independently of `/repo`): the
+interleaving schedule (four passes over the dibit pairs `8k + 2r, 8k + 2r + 1`), the trellis encoder state
+transition table (B.7), the constellation-to-dibit-pair mapping (B.8) and the dibit symbol mapping.  Losslessness
+holds for any consistent set of tables; that the tables are the standard's is this fact. -/
+theorem tables_etsi :
+    interleaveMatrix
+      = (List.range 4).flatMap (fun r => (List.range 13).flatMap (fun k =>
+          if 8 * k + 2 * r + 1 < 98 then [8 * k + 2 * r, 8 * k + 2 * r + 1] else []))
+    ∧ transition =
+      [0, 8, 4, 12, 2, 10, 6, 14,   4, 12, 2, 10, 6, 14, 0, 8,   1, 9, 5, 13, 3, 11, 7, 15,   5, 13, 3, 11, 7, 15, 1, 9,
+       3, 11, 7, 15, 1, 9, 5, 13,   7, 15, 1, 9, 5, 13, 3, 11,   2, 10, 6, 14, 0, 8, 4, 12,   6, 14, 0, 8, 4, 12, 2, 10]
+    ∧ constellationReverse =
+      [(0, (1, -1)), (1, (-1, -1)), (2, (3, -3)), (3, (-3, -3)), (4, (-3, -1)), (5, (3, -1)), (6, (-1, -3)), (7, (1, -3)),
+       (8, (-3, 3)), (9, (3, 3)), (10, (-1, 1)), (11, (1, 1)), (12, (1, 3)), (13, (-1, 3)), (14, (3, 1)), (15, (-3, 1))]
+    ∧ dibits = [((false, true), 3), ((false, false), 1), ((true, false), -1), ((true, true), -3)] := by
+  decide +kernel
+
 /-- the interleave matrix is a permutation of the 98 dibit positions 0..97 -/
 theorem matrix_perm : interleaveMatrix.Perm (List.range 98) :=
   List.isPerm_iff.mp (by decide +kernel)
